@@ -148,6 +148,9 @@ func check(c Case) error {
 		for _, sib := range vk.Siblings(string(s)) { // related inputs first, results discarded
 			_ = seqhash.RotateSequence(sib)
 		}
+		for _, st := range vk.Stems(string(s)) { // and the steps of building the input up
+			_ = seqhash.RotateSequence(st)
+		}
 	}
 	if c.Prior != "" {
 		_ = seqhash.RotateSequence(c.Prior)
